@@ -908,6 +908,7 @@ pub fn c11(cx: &Ctx) -> Report {
                     }
                 }
             };
+            check("Default", "default()".to_string(), s.default(), r);
             for raw in &dom {
                 check("TryFrom", raw.show(), s.try_from_inner(raw), r);
                 check("From", raw.show(), s.from_inner(raw), r);
